@@ -187,7 +187,7 @@ def run_contract(qualname, scenario_index, tier, seed, falsify_n):
     except Exception as e:
         out["crash"] = traceback.format_exc()[-3000:]
     # discharge
-    H.discharge(obls, timeout_ms=20000 if tier == "quick" else 60000)
+    H.discharge(obls, timeout_ms=20000 if tier == "quick" else 60000, retry=(tier == "retry"))
     # falsification / replay of what is not proved (on the real code with real libraries)
     rng = random.Random(seed)
     need = [ob for ob in obls if ob.status != "proved"]
@@ -245,5 +245,20 @@ def run_property(prop, tier="quick", seed=0, jobs=None, only=None, include=()):
                     q, k = futs[fu]
                     results.append({"contract": q, "scenario": k, "crash": repr(e), "obligations": [],
                                     "falsifier": {"runs": 0, "checked": 0, "failures": []}})
+    # an `unknown` under load is usually a timeout: retry those scenarios alone, one at a time,
+    # with a three-fold budget before anything is reported (verdicts must not flip with busy cores)
+    for i, r in enumerate(results):
+        if any(o["status"] == "unknown" for o in r.get("obligations", [])) and not r.get("crash"):
+            q = r["contract"]
+            k = next((j for j, sc in enumerate(contracts[q].scenarios) if sc == r["scenario"] or
+                      json.dumps(sc, default=str) == json.dumps(r["scenario"], default=str)), None)
+            if k is None:
+                continue
+            r2 = run_contract(q, k, "retry", seed + 17 * k, 0)
+            if sum(o["status"] == "proved" for o in r2.get("obligations", [])) >= sum(
+                    o["status"] == "proved" for o in r.get("obligations", [])):
+                r2["falsifier"] = r["falsifier"]
+                r2["retried"] = True
+                results[i] = r2
     results.sort(key=lambda r: (r["contract"], json.dumps(r.get("scenario"), sort_keys=True, default=str)))
     return results
